@@ -243,7 +243,7 @@ fn run_case_with(c: &Case, avoid_shutdown: bool) -> CaseResult {
                         let told = wait_until(&log, Duration::from_millis(1500), |l| l.iter().any(|o| o.node == 1 && matches!(&o.kind, ObsKind::ProbeEstablished { probe, peer } if probe == k && *peer == p2)));
                         ensure!(told, "C07/remaining-protocol-not-told-about-new-connection", "probe {k} of node 1 never saw the connection from the fresh node");
                         let _ = nodes[1].probes[*k].send(ProbeCmd::Open(p2));
-                        let used = wait_until(&log, Duration::from_millis(2500), |l| l.iter().any(|o| o.node == 1 && matches!(&o.kind, ObsKind::ProbeSubstream { probe, peer, inbound: false } if probe == k && *peer == p2)));
+                        let used = wait_until(&log, Duration::from_millis(2500), |l| l.iter().any(|o| o.node == 1 && matches!(&o.kind, ObsKind::ProbeSubstream { probe, peer, inbound: false, .. } if probe == k && *peer == p2)));
                         ensure!(used, "C07/remaining-protocol-cannot-use-new-connection", "probe {k} of node 1 could not open a substream to the fresh node");
                     }
                 }
